@@ -545,9 +545,40 @@ where
     let case = case_string(T::NAME, s);
     acc.calls += 3;
     let json = serde_json::to_string(s).expect("a string always serialises");
-    let de: Result<GenericPurl<T>, serde_json::Error> = serde_json::from_str(&json);
-    let de2: Result<GenericPurl<T>, serde::de::value::Error> = GenericPurl::<T>::deserialize(IntoDeserializer::<serde::de::value::Error>::into_deserializer(s.to_owned()));
-    let de3: Result<GenericPurl<T>, serde_json::Error> = serde_json::from_value(serde_json::Value::String(s.to_owned()));
+    // "succeeds exactly when parsing succeeds": a deserialiser that panics does neither
+    let all = guarded(|| {
+        let de: Result<GenericPurl<T>, serde_json::Error> = serde_json::from_str(&json);
+        let de2: Result<GenericPurl<T>, serde::de::value::Error> = GenericPurl::<T>::deserialize(IntoDeserializer::<serde::de::value::Error>::into_deserializer(s.to_owned()));
+        let de3: Result<GenericPurl<T>, serde_json::Error> = serde_json::from_value(serde_json::Value::String(s.to_owned()));
+        // further ways a deserialiser hands a string over: transient (reader), borrowed, plain &str
+        let de4: Result<GenericPurl<T>, serde_json::Error> = serde_json::from_reader(std::io::Cursor::new(json.as_bytes()));
+        let de5: Result<GenericPurl<T>, serde::de::value::Error> = GenericPurl::<T>::deserialize(serde::de::value::BorrowedStrDeserializer::<serde::de::value::Error>::new(s));
+        let de6: Result<GenericPurl<T>, serde::de::value::Error> = GenericPurl::<T>::deserialize(serde::de::value::StrDeserializer::<serde::de::value::Error>::new(s));
+        (de, de2, de3, de4.ok(), de5.ok(), de6.ok())
+    });
+    let (de, de2, de3, de4, de5, de6) = match all {
+        Ok(x) => x,
+        Err(msg) => {
+            if !matches!(out, Outcome::Panic(_)) {
+                acc.violate(Violation { prop: "C16", kind: "deserialize-panics".into(), case: case.clone(), detail: format!("from_str returns but deserialising the same string panics: {msg}") });
+            }
+            acc.violate(Violation { prop: "C06", kind: "panic".into(), case, detail: format!("panic while deserialising: {msg}") });
+            return false;
+        },
+    };
+    match (out, [&de4, &de5, &de6]) {
+        (Outcome::Err(..), more) if more.iter().any(|x| x.is_some()) => acc.violate(Violation { prop: "C16", kind: "deserialize-accepts".into(), case: case.clone(), detail: "from_str refuses but a reader / borrowed-str / str deserializer accepts".into() }),
+        (Outcome::Ok(p), more) => {
+            for (name, q) in ["serde_json::from_reader", "BorrowedStrDeserializer", "StrDeserializer"].iter().zip(more.iter()) {
+                match q {
+                    None => acc.violate(Violation { prop: "C16", kind: "deserialize-refuses".into(), case: case.clone(), detail: format!("from_str accepts but {name} refuses") }),
+                    Some(q) if q != p => acc.violate(Violation { prop: "C16", kind: "deserialize-differs".into(), case: case.clone(), detail: format!("{name} gives {:?}, from_str {:?}", observe(q), observe(p)) }),
+                    _ => {},
+                }
+            }
+        },
+        _ => {},
+    }
     match out {
         Outcome::Panic(_) => false,
         Outcome::Err(_, text) => {
